@@ -122,3 +122,30 @@ Definition forks_not_excluded_class (c : forks_case) : bool :=
   let '(forks, base, sessions, cur, go_verdict, go_rows) := c in
   let r := walk forks base [] false true sessions in
   negb ((go_verdict =? 0) && charb forks cur (fst (snd r)) && negb (snd (snd r))).
+
+(* ---- forced histories: every tracked start-up but the last was overridden (--no-hf) ------------- *)
+(* node.NewPegnetd still runs CheckHardForks (its back-fill persists) and only logs the refusal: the
+   table then holds any arrangement of versions *)
+Definition forced_state (forks : list (Z * Z)) (base : Z) (h : list session) : state :=
+  fold_left (fun st s => match fst s with
+                         | Untracked => sync_blocks base Untracked (snd s) st
+                         | Tracked v => sync_blocks base (Tracked v) (snd s) (snd (check_hard_forks forks v (fst st)), snd st)
+                         end) h (fresh, []).
+
+Definition forced_agrees (c : forks_case) : bool :=
+  let '(forks, base, sessions, cur, go_verdict, go_rows) := c in
+  let h := map model_session sessions in
+  let d := fst (forced_state forks base h) in
+  (verdict_code forks cur d =? go_verdict)
+  && Bool.eqb (fst (check_hard_forks forks cur d)) (go_verdict =? 0)
+  && rows_eqb (sort_rows (versions (snd (check_hard_forks forks cur d)))) go_rows.
+
+(* the property's oracle on the final start-up: refused iff the characterisation holds of the log
+   (only "refused -> characterisation" outside [untracked_first], as for ordinary histories) *)
+Definition forced_property_on (c : forks_case) : bool :=
+  let '(forks, base, sessions, cur, go_verdict, go_rows) := c in
+  let h := map model_session sessions in
+  if (0 <=? base) && forks_wfb base forks && (-1 <=? cur)
+     && forallb (fun s : obs_session => match fst (fst s) with Tracked v => -1 <=? v | Untracked => true end) sessions
+  then startup_ok forks cur (snd (forced_state forks base h)) (untracked_first h) (negb (go_verdict =? 0))
+  else true.
